@@ -43,6 +43,12 @@ def work(task):
     SPECIAL = ["8000000000000000", "0000000000000000", "3ff0000000000000", "bff0000000000000", "7ff0000000000000",
                "fff0000000000000", "7ff8000000000000", "0000000000000001", "8000000000000001"]
     fixed = [(x, y) for x in SPECIAL for y in SPECIAL] if b == "f64" else [("0:0", "0:0"), ("0:0", "5:0"), ("5:0", "0:0"), ("0:3", "-25:1")]
+    # different amounts that an absolute tolerance would call equal
+    if b == "f64":
+        fixed += [("3bc79ca10c924223", "3bd79ca10c924223"), ("3fd3333333333334", "3fd3333333333333"), ("01a56e1fc2f8f359", "81a56e1fc2f8f359"),
+                  ("3fb999999999999a", "3fb999999999999b"), ("0000000000000001", "0000000000000002")]
+    else:
+        fixed += [("1:18", "2:18"), ("100000000000000001:18", "100000000000000002:18"), ("-1:18", "1:18")]
     for (u, v) in cl.unit_pairs(ent):
         # a single-unit type has one unit pair only: give it the workload a multi-unit type gets over all its pairs
         n = task["n"] * (12 if ent["kind"] == "single" else 1)
@@ -54,6 +60,11 @@ def work(task):
                 kind = "special"
             elif kind == "equal_amounts":
                 y = x
+                if rng.random() < 0.4:
+                    import amounts as _am
+                    nb = _am.neighbours(x, b, ks=(1, -1))
+                    if nb:
+                        y, kind = rng.choice(nb), "near_tie"
             elif kind == "plain":
                 from amounts import short_decimal
                 x, y = short_decimal(rng, b), short_decimal(rng, b)
@@ -115,6 +126,11 @@ def judge(part, case, resps, ctx):
         if "panic" in cr:
             viol("panic", "comparison request panicked: %s" % cr["panic"])
             return
+        if "aa" in cr:
+            # a compared with itself (same object): exactly the amount type's own answers (NaN is not equal to itself)
+            for k, val in cr["aa"].items():
+                if val != cr["nat_aa"][k]:
+                    viol("self_cmp", "a %s a (the same object) is %s, the amount type's own answer is %s" % (k, val, cr["nat_aa"][k]))
         for blk, nm in ((cr["ab"], "(a,b)"), (cr["ba"], "(b,a)")):
             for k, val in blk.items():
                 if isinstance(val, dict):
